@@ -54,8 +54,14 @@ Definition expr_json (a : attr_dep) : string :=
 Definition attr_json (a : attr_dep) : string :=
   "{""name"":" ++ json_string (ad_name a) ++ ",""expr"":" ++ expr_json a ++ "}".
 
-Definition label_ltb (a b : label_dep) : bool := Z.ltb (ld_index a) (ld_index b).
-Definition attr_ltb (a b : attr_dep) : bool := String.ltb (ad_name a) (ad_name b).
+(* comparators of MarshalJSON (after the fix commit: ties on index / name are broken on the
+   value / the rendered expression, so that the key does not depend on the listing order) *)
+Definition pair_ltb (a b : string * string) : bool :=
+  String.ltb (fst a) (fst b) || (String.eqb (fst a) (fst b) && String.ltb (snd a) (snd b)).
+Definition label_ltb (a b : label_dep) : bool :=
+  Z.ltb (ld_index a) (ld_index b) || (Z.eqb (ld_index a) (ld_index b) && String.ltb (ld_value a) (ld_value b)).
+Definition attr_sort_key (a : attr_dep) : string * string := (ad_name a, expr_json a).
+Definition attr_ltb (a b : attr_dep) : bool := pair_ltb (attr_sort_key a) (attr_sort_key b).
 
 Definition sorted_labels (ls : list label_dep) := stable_sort label_ltb ls.
 Definition sorted_attrs (ats : list attr_dep) := stable_sort attr_ltb ats.
